@@ -1010,7 +1010,7 @@ decl(struct scope *s, struct func *f)
 	bool hasinit;
 	char *name, *asmname;
 	int allowfunc = !f;
-	struct decl *d, *prior;
+	struct decl *d, *prior, *p;
 	enum declkind kind;
 	struct scope *funcscope;
 	int align;
@@ -1119,6 +1119,12 @@ decl(struct scope *s, struct func *f)
 				if (!funcscope)
 					error(&tok.loc, "function '%s' is defined without a function declarator", name);
 				s = funcscope;
+				if (t->base->incomplete && t->base->kind != TYPEVOID)
+					error(&tok.loc, "function '%s' is defined with incomplete return type", name);
+				for (p = t->u.func.params; p; p = p->next) {
+					if (p->type->incomplete)
+						error(&tok.loc, "parameter of function '%s' has incomplete type", name);
+				}
 				f = mkfunc(d, name, t, s);
 				stmt(f, s);
 				if (d->u.func.isnoreturn)
